@@ -29,7 +29,7 @@ def gen_ops(rng, tier):
     for i in range(250 if big else 40):
         ll = int(rng.random() < .3)
         P = rng.choice([8, 8, 12, 16, 5]) if ll else rng.choice([8, 8, 12])
-        ops.append("pfeq %d %d %d %d %d %d %d %d" % (P, ll, rng.choice([0, 1, 2, 2, 2, 4, 5, 6]), rng.choice([1, 7, 16, 17, 33, 40]),
+        ops.append("pfeq %d %d %d %d %d %d %d %d" % (P, ll, rng.choice([0, 1, 2, 2, 2, 4, 5, 6]), rng.choice([1, 7, 16, 17, 33, 40, rng.randint(1, 70), rng.randint(1, 130)]),
                                                      rng.choice([1, 8, 9, 16, 19]), rng.randrange(1 << 24), rng.randint(0, 1), rng.randint(0, 1)))
     # merged (fast) upsampling + crop + 4-sample layouts, both parities of the top row
     for P in (8, 12):
@@ -45,12 +45,32 @@ def search(ctx, failing_ops):
     import random
     rng = random.Random("search/%s" % ctx["seed"])
     ops = [o for o in gen_ops(rng, "quick") if o.startswith("pfeq")]
+    # a row conversion that left the model: the same samples in every layout, and whole pictures of that width
+    conv = []
+    for o in failing_ops:
+        p = o.split(" ")
+        if p[0] in ("cconv", "dconv"):
+            for pf in PFS:
+                conv.append("%s %d %s %s" % (p[0], pf, p[2], p[3]))
+            for ss in (0, 2):
+                ops.append("pfeq 8 0 %d %s 9 %s 0 0" % (ss, p[2], p[3]))
+    conv = sorted(set(conv))
     found = []
     for v, exe in ctx["exes"].items():
-        res, _ = C.run_exec(exe, ops)
+        res, _ = C.run_exec(exe, ops + conv)
         for op, (R, O) in zip(ops, res):
             if O and O.startswith("fail"):
                 found.append((v, op, R, O))
+        groups = {}
+        for op, (R, O) in zip(conv, res[len(ops):]):
+            p = op.split(" ")
+            groups.setdefault((p[0], p[2], p[3]), {})[p[1]] = R
+        for key, d in groups.items():
+            if len(set(d.values())) > 1:
+                ref = d.get("0")
+                bad = [pf for pf, R in d.items() if R != ref]
+                found.append((v, "%s %s %s %s" % (key[0], bad[0], key[1], key[2]), d[bad[0]][:120],
+                              "fail %s: the same %s samples converted from/to pixel format %s give other values than from/to format 0 (%s)" % (key[0], key[1], bad[0], (ref or "")[:80])))
     return found
 
 
